@@ -16,6 +16,9 @@
 //	scope values      each probe's .Values == own defaults overridden by the parent's section, plus
 //	                  globals merged top-down with the ancestor winning (ref.MergeKeep/ApplyDefaults)
 //	provenance        no leaf of a parent-private / sibling source in a chart's private values
+//	real install      a real action.Install against the simulated API server (trees with a disabled
+//	                  dependency): no CustomResourceDefinition of a disabled chart is POSTed, those of
+//	                  the enabled charts are (positive control), judged on the request log
 //	isolation         re-render with only one sibling's section perturbed: nobody outside that
 //	                  subtree (ancestors: outside the section) may print anything different
 //
@@ -145,6 +148,9 @@ func post(a *core.Agg) string {
 		"disabled_instances":                               5000,
 		"aliased_instances":                                5000,
 		"schema_violations_in_disabled_dependency_ignored": 20,
+		"real_installs_on_simulated_cluster":               500,
+		"crds_of_disabled_charts_checked":                  500,
+		"crds_of_enabled_charts_seen_posted":               500,
 	}
 	for k, min := range need {
 		if a.Stats[k] < min {
